@@ -238,9 +238,9 @@ package updog
 //@   requires wf(e)
 //@   ensures [C03] result == keySpec(e)
 
-//@ func [C01,C14,C04,C03] (*ExprEqual).eval(e, idx) inherits Expression.eval
-//@ func [C01,C14,C04,C03] (*ExprNot).eval(e, idx) inherits Expression.eval
-//@ func [C01,C14,C04,C03] (*ExprAnd).eval(e, idx) inherits Expression.eval
+//@ func [C01,C14,C04,C03,C08] (*ExprEqual).eval(e, idx) inherits Expression.eval
+//@ func [C01,C14,C04,C03,C08] (*ExprNot).eval(e, idx) inherits Expression.eval
+//@ func [C01,C14,C04,C03,C08] (*ExprAnd).eval(e, idx) inherits Expression.eval
 //@   loop 1
 //@     invariant IdxInv(idx) && wf(e)
 //@     invariant forall j idx(elems) :: elems[j] != nil && elems[j].view == sem(e.Exprs[j], idx) && subset(elems[j].view, univ(idx.nextRowID))
@@ -249,7 +249,7 @@ package updog
 //@     invariant 0 <= $i && $i <= len(e.Exprs) && len(elems) == $i
 //@     decreases len(e.Exprs) - $i
 //@   assert after FastAnd: first_operand_bounds_the_result: len(elems) >= 1 ==> subset(elems[0].view, univ(idx.nextRowID))
-//@ func [C01,C14,C04,C03] (*ExprOr).eval(e, idx) inherits Expression.eval
+//@ func [C01,C14,C04,C03,C08] (*ExprOr).eval(e, idx) inherits Expression.eval
 //@   loop 1
 //@     invariant IdxInv(idx) && wf(e)
 //@     invariant forall j idx(elems) :: elems[j] != nil && elems[j].view == sem(e.Exprs[j], idx) && subset(elems[j].view, univ(idx.nextRowID))
@@ -263,7 +263,7 @@ package updog
 // about the code: getValueIndex has to build exactly these bytes to get its postcondition)
 //@ axiom idxOf_def: forall b []byte, k string, v string :: { sum64(b), idxOf(k, v) } len(b) == len(k) + 1 + len(v)
 //@     && (forall p idx(b) :: b[p] == ((p < len(k)) ? k[p] : ((p == len(k)) ? 0 : v[p - len(k) - 1]))) ==> sum64(b) == idxOf(k, v)
-//@ func [C01,C05] getValueIndex(k, v) (result)
+//@ func [C01,C05,C04,C08,C03] getValueIndex(k, v) (result)
 //@   ensures [C01,C05] value_index_is_the_hash_of_column_NUL_value: result == idxOf(k, v)
 
 // Structural cache keys (C03). ckey(mask, keys) names the hash of the canonical encoding of an operator mask followed
@@ -286,20 +286,20 @@ package updog
 //@ axiom keyspec_or: forall x Expression, ks []uint64 :: { keySpec(x), ckey(maskOr, ks) } typeof(x) == ptrtag(ExprOr) && len(ks) == len(x.(*ExprOr).Exprs)
 //@     && (forall j idx(ks) :: ks[j] == keySpec(x.(*ExprOr).Exprs[j])) ==> keySpec(x) == ckey(maskOr, ks)
 
-//@ func [C03,C14] combineCacheKeys(mask, keys) (result)
+//@ func [C03,C14,C08,C04] combineCacheKeys(mask, keys) (result)
 //@   ensures [C03] key_is_hash_of_mask_and_all_operands_in_order: result == ckey(mask, keys)
 //@   loop 1
 //@     invariant 0 <= $i && $i <= len(keys) && len(buf) == 8 * (len(keys) + 1) && arr(buf) != nil && !(arr(buf) in old($alloc)) && off(buf) == 0
 //@     invariant forall p idx(buf) :: p < 8 * ($i + 1) ==> buf[p] == ((p < 8) ? be64byte(mask, p) : be64byte(keys[(p - 8) / 8], (p - 8) % 8))
 
-//@ func [C03,C14] (*ExprEqual).cacheKey(e) inherits Expression.cacheKey
-//@ func [C03,C14] (*ExprNot).cacheKey(e) inherits Expression.cacheKey
-//@ func [C03,C14] (*ExprAnd).cacheKey(e) inherits Expression.cacheKey
+//@ func [C03,C14,C08,C04] (*ExprEqual).cacheKey(e) inherits Expression.cacheKey
+//@ func [C03,C14,C08,C04] (*ExprNot).cacheKey(e) inherits Expression.cacheKey
+//@ func [C03,C14,C08,C04] (*ExprAnd).cacheKey(e) inherits Expression.cacheKey
 //@   loop 1
 //@     invariant wf(e) && 0 <= $i && $i <= len(e.Exprs) && len(keys) == $i
 //@     invariant arr(keys) != nil && !(arr(keys) in old($alloc))
 //@     invariant forall j idx(keys) :: keys[j] == keySpec(e.Exprs[j])
-//@ func [C03,C14] (*ExprOr).cacheKey(e) inherits Expression.cacheKey
+//@ func [C03,C14,C08,C04] (*ExprOr).cacheKey(e) inherits Expression.cacheKey
 //@   loop 1
 //@     invariant wf(e) && 0 <= $i && $i <= len(e.Exprs) && len(keys) == $i
 //@     invariant arr(keys) != nil && !(arr(keys) in old($alloc))
@@ -312,7 +312,7 @@ package updog
 //@ pred GBOK(gbs []groupBy, columns []string, sch *schema) := len(gbs) == len(columns)
 //@   && (forall j idx(gbs) :: gbs[j].Column == columns[j] && (columns[j] in sch.Columns) && ValuesOK(gbs[j].Values, sch.Columns[columns[j]]))
 
-//@ func [C02,C08,C14] (*Query).populateGroupBy(q, columns, sch) (gbs, err)
+//@ func [C02,C08,C14,C04,C03] (*Query).populateGroupBy(q, columns, sch) (gbs, err)
 //@   requires SchemaOK(sch)
 //@   ensures [C02] err != nil ==> arr(gbs) == nil && len(gbs) == 0
 //@   ensures [C02] err == nil ==> GBOK(gbs, columns, sch)
@@ -381,7 +381,7 @@ package updog
 //@   ensures [C03] stored_and_preloaded_bitmaps_unchanged: forall k uint64 :: gcol(idx.values, k) == old(gcol(idx.values, k))
 
 // validateExpr: establishes well-formedness (termination of the recursion over finite trees is not proved).
-//@ func [C14,C01] validateExpr(expr) (err)
+//@ func [C14,C01,C04,C08,C03] validateExpr(expr) (err)
 //@   ensures [C14] err == nil ==> wf(expr)
 //@   loop 1
 //@     invariant forall j idx(e.Exprs) :: j < $i ==> wf(e.Exprs[j])
